@@ -15,6 +15,15 @@ pub fn err_node(e: impl std::fmt::Display) -> J {
     json!({ "err": format!("{e}").chars().take(160).collect::<String>() })
 }
 
+/// Error node from a jubako error without formatting the (possibly huge) corrupted buffer.
+pub fn jerr(e: jbk::Error) -> J {
+    let text = match &*e {
+        jbk::ErrorKind::Corrupted(_) => "Corrupted (checksum mismatch)".to_string(),
+        other => format!("{other}").chars().take(160).collect(),
+    };
+    json!({ "err": text })
+}
+
 pub fn is_err(j: &J) -> bool {
     j.as_object().map(|o| o.len() == 1 && o.contains_key("err")).unwrap_or(false)
 }
@@ -63,7 +72,7 @@ pub fn dump_index(od: &OpenDir, name: &str) -> J {
 pub fn dump_content(c: &jbk::reader::Container, pack: u16, idx: u32) -> J {
     let a = jbk::ContentAddress::new(jbk::PackId::from(pack), jbk::ContentIdx::from(idx));
     match c.get_bytes(a) {
-        Err(e) => err_node(e),
+        Err(e) => jerr(e),
         Ok(None) => json!("no such pack"),
         Ok(Some(MayMissPack::MISSING(info))) => json!({"missing": {"pack_id": info.pack_id.into_u16(), "location": info.pack_location.as_str(), "uuid": info.uuid.to_string()}}),
         Ok(Some(MayMissPack::FOUND(None))) => json!("no such content"),
@@ -160,7 +169,7 @@ pub fn dump_container(path: &Path, opts: &DumpOpts) -> J {
     for &p in &opts.pack_ids {
         let count = match c.get_pack(jbk::PackId::from(p)) {
             Err(e) => {
-                packs.insert(p.to_string(), err_node(e));
+                packs.insert(p.to_string(), jerr(e));
                 continue;
             }
             Ok(None) => {
@@ -366,6 +375,35 @@ pub fn shape(name: &str) -> Logical {
                 },
             }
         }
+        // two extra content packs (manifest lists 3 content packs)
+        "multi2" => {
+            let mut l = shape("multi");
+            l.name = name.into();
+            l.extra_packs = vec![
+                vec![item(800, Entropy::Low, Hint::Yes, 21), item(90, Entropy::High, Hint::No, 22)],
+                vec![item(300, Entropy::High, Hint::No, 23), item(1500, Entropy::Low, Hint::Yes, 24)],
+            ];
+            let n = l.dir.entries.len();
+            for (i, e) in l.dir.entries.iter_mut().enumerate() {
+                if e.variant == Some(0) {
+                    let last = e.vals.len() - 1;
+                    e.vals[last] = Val::C((1 + i % 3) as u16, (i % 2) as u32);
+                }
+            }
+            let _ = n;
+            l
+        }
+        // more than 1024 contents in one raw cluster: the content-info table is a checked block above 4 KiB
+        "many" => Logical {
+            name: name.into(),
+            contents: (0..1100).map(|i| item(1 + i % 3, Entropy::Low, Hint::No, 5000 + i as u64)).collect(),
+            extra_packs: vec![],
+            dir: DirSpec {
+                schema: SchemaSpec { stores: vec![StoreKind::Plain], common: vec![PropSpec::A { prefix: 2, store: 0 }, PropSpec::C], variants: vec![], sort: None },
+                entries: (0..3).map(|i| EntrySpec { variant: None, vals: vec![Val::A(format!("e{i}").into_bytes()), Val::C(1, (i * 500) as u32)] }).collect(),
+                indexes: vec![IndexSpec { name: "main".into(), offset: 0, count: 3 }],
+            },
+        },
         other => panic!("unknown shape {other}"),
     }
 }
